@@ -2,7 +2,7 @@
    Statements only; proofs in Proofs/CpsrWrite.v (code = pseudocode) and Proofs/ArchFacts.v (consequences). *)
 From Coq Require Import ZArith Bool List.
 From ArmV Require Import Lib.PyZ Lib.Monad Lib.Machine Spec.Pseudocode Spec.Arch
-  Proofs.StateLemmas Proofs.CondProofs Proofs.BankProofs Proofs.CpsrWrite Proofs.ArchFacts.
+  Spec.MachineView Spec.Coproc Proofs.StateLemmas Proofs.CondProofs Proofs.BankProofs Proofs.CpsrWrite Proofs.ArchFacts Proofs.CoprocProofs.
 From Gen Require Import enums core.
 Open Scope Z_scope.
 
@@ -51,3 +51,15 @@ Theorem C12_reserved x cpsr value bytemask excp : 0 <= cpsr ->
   bits (CPSRWriteByInstr x cpsr value bytemask excp) 23 20 = bits cpsr 23 20.
 Proof. exact (reserved_unchanged x cpsr value bytemask excp). Qed.
 Print Assumptions C12_reserved.
+
+(* coprocessor gating (no Virtualization Extensions): an access the access-control registers deny (NSACR for Non-secure
+   state, CPACR by privilege) is UNDEFINED and changes nothing; a permitted one reaches the coprocessor itself, which the
+   emulator does not implement (documented not-implemented outcome) *)
+Theorem C12_coproc_gate cfg cp instr s :
+  cfg_have_virt_ext cfg = 0 -> 0 <= cp < 14 -> cp <> 10 -> cp <> 11 ->
+  ArmV6_coproc_accepted cfg cp instr s =
+  if coproc_denied (truthy (cfg_have_security_ext cfg)) (IsSecure (sysctx_of cfg s) (cpsr_of s)) (mode_of s =? 16)
+                   (getl (sys s) 10) (getl (sys s) 43) cp
+  then Exc EUndefined s else Exc ENotImpl s.
+Proof. exact (coproc_accepted_spec cfg cp instr s). Qed.
+Print Assumptions C12_coproc_gate.
